@@ -94,6 +94,8 @@ def contracts(env):
 
 
 def extra(rep, tier, seed, budget):
+    from bounded import author_options as _ao
+    _ao.integrate(rep)
     from bounded import integrate as _integ
     _integ.system_histories(rep, tier, seed, ['C03_green_destinations'])
     from bounded import c05_queue
